@@ -167,9 +167,29 @@ func (c c12SafeForNothing) SafeFor() []string      { return nil }
 
 type c12Loader struct{ m map[string]string }
 
+// c12NamePolicy: what the Template handed out by the loader reports as its Name() - a host-written loader may report
+// a record key, nothing, or a revision-suffixed name; the content type is that of the name the template was asked for
+var c12NamePolicy int
+
+func c12Reported(name string) string {
+	switch c12NamePolicy {
+	case 1:
+		return "templates:17"
+	case 2:
+		return ""
+	case 3:
+		return name + "@rev.12"
+	case 4:
+		return "blobs/0001.txt"
+	case 5:
+		return "cache/" + name + ".js"
+	}
+	return name
+}
+
 func (l *c12Loader) Load(name string) (stick.Template, error) {
 	if s, ok := l.m[name]; ok {
-		return &memTpl{name, s}, nil
+		return &memTpl{c12Reported(name), s}, nil
 	}
 	return &memTpl{name, name}, nil // inline template: the name is the source
 }
@@ -392,6 +412,11 @@ func c12Run(c core.Case) core.Result {
 		_ = stick.NewSafeValue(orig, own) // a wider re-wrap of the value; the original stays safe for the other type only
 		val = orig
 	}
+	c12NamePolicy = 0
+	if len(c.N) > 6 {
+		c12NamePolicy = c.N[6]
+		defer func() { c12NamePolicy = 0 }()
+	}
 	env := twig.New(&c12Loader{tpls})
 	env.Functions["f"] = func(ctx stick.Context, args ...stick.Value) stick.Value { return val }
 	env.Filters["idf"] = func(ctx stick.Context, v stick.Value, args ...stick.Value) stick.Value { return v }
@@ -500,6 +525,19 @@ func c12Levels(tier string) []core.Level {
 	lv := []core.Level{
 		{Name: "31 print positions x variable x all 13 payloads x all 24 template names x no modifier", Gen: func(emit func(core.Case)) {
 			gen(all(len(c12Payloads)), []int{0}, []int{0}, names, emit)
+		}},
+		{Name: "host-written loaders whose templates report another name than the one asked for (a record key, nothing, a revision suffix, a .txt blob, a cache path ending in .js): 31 positions x 3 payloads x 24 names x {none, escape} - the content type is the requested name's", Gen: func(emit func(core.Case)) {
+			for pos := 0; pos < c12Positions; pos++ {
+				for _, pi := range []int{0, 4, 8} {
+					for ni := range c12Names {
+						for _, m := range []int{0, 2} {
+							for pol := 1; pol <= 5; pol++ {
+								emit(core.Case{Fam: "print", N: []int{pos, 0, pi, ni, m, 0, pol}})
+							}
+						}
+					}
+				}
+			}
 		}},
 		{Name: "inline templates of every size: 0..320 bytes and 500, 1000, 4096, 70000 bytes of padding inside the print's delimiters (blanks, line breaks), in front of the print, behind it, or as a list laid out over many lines in a last tag x 6 endings that look like file names x 3 payloads: html all the same", Gen: func(emit func(core.Case)) {
 			ns := []int{500, 1000, 4096, 70000}
